@@ -12,7 +12,8 @@ META = {
     "bounds": "n<=6 quick / n<=8 thorough samples with the default integer timings, n<=4/5 with symbolic increasing "
               "timings; missing-value masks: every NaN pattern; clustering kernels: all graphs n<=5/6",
     "assumptions": [
-        "exact rational arithmetic (the statement prescribes it); float32 slope rounding is outside",
+        "exact rational arithmetic (the statement prescribes it) for the criterion obligations",
+        "IEEE lemma: three samples, signed 6-bit integer values, the listed timing triples; float semantics = C usual arithmetic conversions over the declared types",
         "R+NaN domain: a sample is a pair (is-NaN, real); comparisons with NaN are false as in IEEE",
     ],
     "outside": ["float32 rounding of slopes", "retarded/advanced closeness and betweenness (igraph / n.s.i. betweenness, see C03)"],
@@ -181,6 +182,45 @@ def ob_clustering(name, fn, n):
                   f"C14|{fn}|triangle-definition", wit, timeout=240)
 
 
+def ob_fp_consistency(name, fn, ts, bits):
+    """IEEE lemma (domain F): on small-integer data the kernel's float comparisons -- evaluated with the C
+    types declared in the .pyx and C's usual arithmetic conversions -- decide exactly like the rational
+    criterion.  Exposes mixed-precision slope comparisons (collinear triples)."""
+    mod = kern.module(TS)
+    n = len(ts)
+    F = sx.F32
+    xb = [z3.BitVec(f"xb{i}", bits) for i in range(n)]
+    x = [z3.fpSignedToFP(sx.RNE, b, F) for b in xb]
+    t = [z3.FPVal(float(v), F) for v in ts]
+    A = Arr.full((n, n), 0, "int8")
+    run = Run(mod, loop_bound=n + 1, domain="F", feas_timeout_ms=500)
+    if fn == "_visibility_relations_horizontal":
+        run.call(fn, [Arr((n,), x, "float32"), n, A])
+    elif fn == "_visibility_relations_missingvalues":
+        run.call(fn, [Arr((n,), x, "float32"), Arr((n,), t, "float32"), n, A, Arr((n,), [False] * n, "bool")])
+    else:
+        run.call(fn, [Arr((n,), x, "float32"), Arr((n,), t, "float32"), n, A])
+    W = bits + 8
+    xe = [z3.SignExt(W - bits, b) for b in xb]
+    bad = [not_(run.ok())]
+    for i in range(n):
+        for j in range(i + 2, n):
+            c = True
+            for k in range(i + 1, j):
+                if fn == "_visibility_relations_horizontal":
+                    c = and_(c, xe[k] < xe[i], xe[k] < xe[j])
+                else:
+                    c = and_(c, (xe[k] - xe[i]) * (ts[j] - ts[i]) < (xe[j] - xe[i]) * (ts[k] - ts[i]))
+            bad.append(ne(eq(A.get(i, j), 1), c))
+
+    def wit(m):
+        return {"kind": "criterion", "fn": fn, "x": [m.eval(b, model_completion=True).as_signed_long() for b in xb],
+                "t": list(ts)}
+    return decide(name, run.assumptions, or_(*bad), [mod.func_info(fn)],
+                  f"timings {ts}, samples = all signed {bits}-bit integers as float32; IEEE-754 float32/float64 semantics "
+                  "with the declared C types", f"C14|{fn}|ieee-consistency", wit, timeout=600, twin=False)
+
+
 # ---------------------------------------------------------------------------------- prepare
 def prepare(tier):
     import numpy as np
@@ -247,6 +287,12 @@ def obligations(tier):
     for n in ((3, 4, 5) if not th else (3, 4, 5, 6)):
         for fn in ("_retarded_local_clustering", "_advanced_local_clustering"):
             obs.append((ob_clustering, dict(name=f"C14|{fn}|triangles|n={n}", fn=fn, n=n), 1200))
+    triples = [(0, 1, 3), (0, 2, 3), (0, 3, 6), (0, 1, 4), (0, 3, 4), (0, 2, 5)]
+    if th:
+        triples = [(0, a, a + b) for a in range(1, 7) for b in range(1, 7) if not (a == b)]
+    for ts in triples:
+        for fn in (nat, mvk):
+            obs.append((ob_fp_consistency, dict(name=f"C14|{fn}|ieee-consistency|t={ts}", fn=fn, ts=ts, bits=6), 1500))
     from . import C14_wrappers
     obs.extend(C14_wrappers.obligations(tier))
     return obs
@@ -283,9 +329,7 @@ def replay(w):
         x = [float(v) for v in core.to_float(w["x"])]
         t = [float(v) for v in core.to_float(w["t"])]
         hor = fn.endswith("horizontal")
-        mvs = any(v != v for v in x) or fn.endswith("_missingvalues")
-        if fn.endswith("_missingvalues") and not hor:
-            mvs = True
+        mvs = any(v != v for v in x) or fn == "_visibility_relations_missingvalues"
         vg = VisibilityGraph(np.array(x), timings=np.array(t), missing_values=mvs, horizontal=hor, silence_level=3)
         A = np.asarray(vg.adjacency).tolist()
         if kind == "criterion":
